@@ -141,6 +141,12 @@ type verifC14Start struct {
 	killFalse bool   // the scheduler's previous "about to start" KillContainer call was for uuid and answered false
 	held      string // "h"/"d" if the instance had been put on hold/drain before the StartContainer call
 	matched   bool   // a StartContainer(uuid)=true call preceded this exec
+	callAt    time.Time
+}
+
+type verifC14Hold struct {
+	tag string
+	at  time.Time // taken after SetIdleBehavior returned
 }
 
 type verifC14Obs struct {
@@ -150,7 +156,7 @@ type verifC14Obs struct {
 	starts      []*verifC14Start
 	lastCall    map[int]*verifC14Start // uuid -> info captured at the latest StartContainer(uuid)=true
 	lastKill    int                    // uuid of the last "about to start" kill that answered false, else -1
-	idle        map[string]string      // instance -> "h"/"d" set by the scenario (and not reverted)
+	idle        map[string]verifC14Hold // instance -> hold/drain set by the scenario
 	restartAt   time.Time
 	listedSince map[string]bool // instance served a crunch-run --list since the last restart
 	bugs        []string
@@ -298,7 +304,10 @@ func (o *verifC14Obs) wrapVM(svm *test.StubVM) {
 					st.others = append(st.others, tag)
 				}
 			}
-			st.held = o.idle[id]
+			if h, ok := o.idle[id]; ok && st.matched && h.at.Before(st.callAt) {
+				// the instance was held/draining before the scheduler even called StartContainer
+				st.held = h.tag
+			}
 			o.starts = append(o.starts, st)
 			o.mtx.Unlock()
 			o.checkTracked()
@@ -362,13 +371,23 @@ func (p *verifC14Pool) StartContainer(it arvados.InstanceType, ctr arvados.Conta
 		cache:     verifC14St(string(cached.State)),
 		api:       verifC14St(api),
 		killFalse: o.lastKill == n,
+		callAt:    time.Now(),
 	}
 	o.lastKill = -1
+	// registered before the call: the remote command can reach the VM before StartContainer returns
+	prev := o.lastCall[n]
+	o.lastCall[n] = info
 	o.mtx.Unlock()
 	r := p.pool.StartContainer(it, ctr)
-	if r {
+	if !r {
 		o.mtx.Lock()
-		o.lastCall[n] = info
+		if o.lastCall[n] == info {
+			if prev != nil {
+				o.lastCall[n] = prev
+			} else {
+				delete(o.lastCall, n)
+			}
+		}
 		o.mtx.Unlock()
 	}
 	return r
@@ -537,7 +556,7 @@ func verifC14Run(p verifC14Params) (out string) {
 		})
 	}
 	obs := &verifC14Obs{cloud: cl, queue: queue, lastCall: map[int]*verifC14Start{}, lastKill: -1,
-		idle: map[string]string{}, listedSince: map[string]bool{}}
+		idle: map[string]verifC14Hold{}, listedSince: map[string]bool{}}
 	sd.Queue = queue
 	sd.Bugf = func(format string, a ...interface{}) {
 		obs.mtx.Lock()
@@ -642,7 +661,7 @@ func verifC14Run(p verifC14Params) (out string) {
 				obs.restartAt = time.Now()
 				obs.listedSince = map[string]bool{}
 				obs.lastCall = map[int]*verifC14Start{}
-				obs.idle = map[string]string{}
+				obs.idle = map[string]verifC14Hold{}
 				obs.lastKill = -1
 				obs.mtx.Unlock()
 				nrestart++
@@ -671,7 +690,7 @@ func verifC14Run(p verifC14Params) (out string) {
 					}
 					if disp.pool.SetIdleBehavior(v.Instance, b) == nil {
 						obs.mtx.Lock()
-						obs.idle[string(v.Instance)] = tag
+						obs.idle[string(v.Instance)] = verifC14Hold{tag, time.Now()}
 						obs.mtx.Unlock()
 					}
 				}
